@@ -179,6 +179,97 @@ func TestFloat32Sweep(t *testing.T) {
 	rec.Sample(map[string]interface{}{"campaign": "float32 sweep through Floats32 in 4096-element chunks", "count": n, "example_bits": []string{"0x00000001", "0x358637bd (1e-6)", "0x60ad78ec (1e21)", "0x7fc00000 (NaN)"}})
 }
 
+// checkF64Chunk: as checkF32Chunk for float64 through Floats64.
+func checkF64Chunk(fs []float64) string {
+	var buf bytes.Buffer
+	l := zerolog.New(&buf)
+	l.Log().Floats64("f", fs).Send()
+	n, err := jsonref.ValidateLine(buf.Bytes())
+	if err != nil {
+		return fmt.Sprintf("invalid JSON from Floats64: %v", err)
+	}
+	if len(n.O) != 1 || n.O[0].Val.Kind != jsonref.Arr || len(n.O[0].Val.A) != len(fs) {
+		return fmt.Sprintf("unexpected shape from Floats64: %.200s", buf.String())
+	}
+	ref, err := json.Marshal(fs)
+	if err != nil {
+		return "HARNESS-ERROR: " + err.Error()
+	}
+	refs := bytes.Split(ref[1:len(ref)-1], []byte(","))
+	for i, f := range fs {
+		e := n.O[0].Val.A[i]
+		if e.Kind != jsonref.Num || e.Raw != string(refs[i]) {
+			return fmt.Sprintf("float64 0x%016x: want %s (encoding/json), got %s", math.Float64bits(f), refs[i], e)
+		}
+		back, perr := strconv.ParseFloat(e.Raw, 64)
+		if perr != nil || back != f {
+			return fmt.Sprintf("float64 0x%016x: %s does not parse back to the same float64", math.Float64bits(f), e.Raw)
+		}
+	}
+	return ""
+}
+
+// TestFloat64Stratified: every sign x exponent of float64 with boundary and strided mantissas,
+// plus ulp neighbourhoods of the format cut-offs.
+func TestFloat64Stratified(t *testing.T) {
+	const chunk = 4096
+	fs := make([]float64, 0, chunk)
+	var n int64
+	flush := func() {
+		if len(fs) == 0 {
+			return
+		}
+		if msg := checkF64Chunk(fs); msg != "" {
+			l := make([]lp.Val, len(fs))
+			for i, f := range fs {
+				l[i] = lp.Val{T: "float64", U: math.Float64bits(f)}
+			}
+			fail(t, "float64", lp.P(lp.DefaultSettings(), nil, lp.Ev(lp.KV("f", lp.Val{T: "floats64", L: l}))), msg)
+		}
+		fs = fs[:0]
+	}
+	add := func(bits uint64) {
+		f := math.Float64frombits(bits)
+		if math.IsNaN(f) || math.IsInf(f, 0) {
+			return
+		}
+		fs = append(fs, f)
+		n++
+		if len(fs) == chunk {
+			flush()
+		}
+	}
+	per := uint64(128)
+	if ev.Thorough() {
+		per = 2048
+	}
+	seed := uint64(ev.Seed())
+	for se := uint64(0); se < 4096; se++ {
+		for k := uint64(0); k < per; k++ {
+			var mant uint64
+			switch {
+			case k < 8:
+				mant = k
+			case k < 16:
+				mant = 1<<52 - 1 - (k - 8)
+			default:
+				mant = (k*0x9E3779B97F4A7C15 + seed*0xD1B54A32D192ED03) & (1<<52 - 1)
+			}
+			add(se<<52 | mant)
+		}
+	}
+	for _, c := range []float64{1e-6, 1e21, 1e-7, 1e20, 1e-5, 1e22, 9007199254740992, 0.1, 1e-9, 1e-10, 1e100, 1e-100, 123456789.125} {
+		b := math.Float64bits(c)
+		for d := -256; d <= 256; d++ {
+			add(uint64(int64(b) + int64(d)))
+			add(uint64(int64(b)+int64(d)) | 1<<63)
+		}
+	}
+	flush()
+	rec.Bulk(n, n-2, "float64-stratified")
+	rec.Sample(map[string]interface{}{"campaign": "float64 stratified sweep through Floats64", "count": n})
+}
+
 func f32Vals(fs []float32) []lp.Val {
 	o := make([]lp.Val, len(fs))
 	for i, f := range fs {
